@@ -105,12 +105,14 @@ func checkC13(c *Ctx) {
 
 // c13Senders: every production implementation of core.Sender.RequestBlock returns only
 // hash-validated blocks.
-func c13Senders(c *Ctx) {
+func c13Senders(c *Ctx) { c13SendersFor(c, "C13.1") }
+
+func c13SendersFor(c *Ctx, rule string) {
 	p := c.P
 	iface := p.Iface("core", "Sender")
 	impls := p.Implementations(iface, false)
 	if len(impls) == 0 {
-		c.Unresolved("C13.1", "core.Sender", "no implementations found")
+		c.Unresolved(rule, "core.Sender", "no implementations found")
 		return
 	}
 	seen := map[*ssa.Function]bool{}
@@ -165,13 +167,13 @@ func c13Senders(c *Ctx) {
 				}
 			}
 		}
-		c.Check(len(bad) == 0 && n > 0, "C13.1", name+": returns only the requested block", p.FuncPos(fn),
+		c.Check(len(bad) == 0 && n > 0, rule, name+": returns only the requested block", p.FuncPos(fn),
 			"every (block, true) return is the decoded reply of the hash-validating quorum call for that hash, or a local lookup under that hash", join(bad))
 	}
 	// the quorum function compares hashes
 	qf := p.Method("network", "qspec", "RequestBlockQF")
 	if qf == nil {
-		c.Unresolved("C13.1", "qspec.RequestBlockQF", "anchor missing")
+		c.Unresolved(rule, "qspec.RequestBlockQF", "anchor missing")
 		return
 	}
 	fl := NewFlow(p, qf)
@@ -200,7 +202,7 @@ func c13Senders(c *Ctx) {
 			}
 		}
 	})
-	c.Check(len(bad) == 0 && n > 0 && copied, "C13.1", "qspec.RequestBlockQF: reply accepted only if its hash is the requested one", p.FuncPos(qf),
+	c.Check(len(bad) == 0 && n > 0 && copied, rule, "qspec.RequestBlockQF: reply accepted only if its hash is the requested one", p.FuncPos(qf),
 		"(b, true) is returned only under h == BlockFromProto(b).Hash(), h copied from the request", "request hash copied: "+boolStr(copied)+"; "+join(bad))
 	_ = types.Typ
 }
